@@ -744,6 +744,11 @@ def run(ck):
     check_nowait(ck)
     check_blocking(ck)
     check_waiter_fifo(ck)
+    # join()/task_done() go through locks.Event: its wake-up loop must not settle a waiter that is already done but still
+    # registered (*_unless_cancelled only excludes cancelled futures) — otherwise task_done() raises and later joins hang
+    es = ck.func("tornado/locks.py", "Event.set")
+    k_ = check_settles(ck, "C35.settle", es, allow_safe_unguarded=False)
+    ck.floor("C35.settle", k_, 1, "settle sites in Event.set (the queue's finished event)")
     for fi in list(ck.repo.module(Q).funcs.values()):
         if isinstance(fi.node, q.FuncNode):
             check_outcome_reads(ck, "C35.cancel-aware", fi)
@@ -777,6 +782,7 @@ def _get_before_put(root):
 
 
 MUTANTS = [
+    ("the finished event wakes join() waiters with *_unless_cancelled, no done() test (seeded C35-adv6)", lambda repo: mutate(repo, "tornado/locks.py", "Event.set", replace_stmt(lambda st: isinstance(st, ast.If) and "done()" in ast.unparse(st.test), lambda st: [parse_stmt("future_set_result_unless_cancelled(fut, None)")])), "C35.settle"),
     ("_consume_expired skips the purge while no timed waiter was registered (seeded C35-adv4)", _in("Queue._consume_expired", lambda root: (root.body.insert(0, parse_stmt("if not getattr(self, '_timed_waiters', 0):\n    return")) or True)), "C35.expired"),
     ("_consume_expired reads .exception() of purged waiters (seeded C35-adv3)", _in("Queue._consume_expired", replace_stmt(lambda st: isinstance(st, ast.Expr) and "_getters.popleft" in ast.unparse(st), lambda st: [ast.Expr(value=parse_expr("self._getters.popleft().exception()"))])), "C35.cancel-aware"),
     ("get_nowait re-raises the woken putter's outcome (putter.result() unguarded)", _in("Queue.get_nowait", replace_stmt(lambda st: isinstance(st, ast.Expr) and "future_set_result_unless_cancelled" in ast.unparse(st), lambda st: [st, parse_stmt("putter.result()")])), "C35.cancel-aware"),
